@@ -125,6 +125,11 @@ def _ground_consts(fs):
                     out.setdefault(ix.sort().name(), {})[ix.get_id()] = ix
             if g and t.num_args() == 0 and t.decl().kind() == z3.Z3_OP_UNINTERPRETED and t.sort().kind() == z3.Z3_UNINTERPRETED_SORT:
                 out.setdefault(t.sort().name(), {})[i] = t
+            # Real-valued field reads H_f[x] (x of an uninterpreted sort): the instantiation set for the few hypotheses
+            # quantified over a real bound (e.g. "for every price bound L ...")
+            if g and t.sort() == z3.RealSort() and t.decl().kind() == z3.Z3_OP_SELECT and z3.is_const(t.arg(0)) \
+                    and t.arg(1).sort().kind() == z3.Z3_UNINTERPRETED_SORT and len(out.get("$Real", {})) < 16:
+                out.setdefault("$Real", {})[i] = t
         return g
 
     import sys
@@ -150,8 +155,8 @@ def instantiate_quantifiers(fs):
         if z3.is_quantifier(e):
             if e.is_forall():
                 sorts = [e.var_sort(i) for i in range(e.num_vars())]
-                if all(s.kind() == z3.Z3_UNINTERPRETED_SORT for s in sorts):
-                    pools = [list(consts.get(s.name(), {}).values()) for s in sorts]
+                if all(s.kind() == z3.Z3_UNINTERPRETED_SORT or s == z3.RealSort() for s in sorts) and sum(1 for s in sorts if s == z3.RealSort()) <= 1:
+                    pools = [list(consts.get("$Real" if s == z3.RealSort() else s.name(), {}).values()) for s in sorts]
                     n = 1
                     for p in pools:
                         n *= max(1, len(p))
